@@ -102,7 +102,7 @@ Proof.
     destruct (stop_req s) eqn:Hs; [left; auto 6|].
     inversion H; subst. destruct R as [[R _]|[_ R]]; [discriminate|]. rewrite get_prod_goto in R by exact Hp. discriminate.
   - (* PAdmit *)
-    inversion H; subst. clear H. unfold admit, push in R.
+    inversion H; subst. clear H. unfold admission, push in R.
     destruct (accepting s) eqn:A; [|left; auto 6]. cbn [negb] in R.
     destruct (full s) eqn:F.
     + destruct (knd (get_prod p s)) eqn:K; [right; auto| |];
@@ -111,7 +111,7 @@ Proof.
       cbn [prods set_accepted set_vals set_prods] in R. rewrite Nat.eqb_refl in R.
       destruct (Nat.ltb_spec p (length (prods s))); [|lia]. cbn [pc set_pc andb] in R. destruct (is_nil (vals s)); discriminate.
   - (* PWoken *)
-    inversion H; subst. clear H. unfold admit, push in R.
+    inversion H; subst. clear H. unfold admission, push in R.
     destruct (accepting s) eqn:A; [|left; auto 6]. cbn [negb] in R.
     destruct (full s) eqn:F.
     + destruct (knd (get_prod p s)) eqn:K; [right; auto| |];
@@ -144,7 +144,7 @@ Proof.
   intros H A Hl. destruct l as [p h|p v k|p|p| | |t|w| | | | | ]; cbn [step] in H; try congruence.
   - destruct (pc (get_prod p s)); try discriminate. destruct (p <? length (prods s)); inversion H; subst; unf2; auto.
   - destruct (pc (get_prod p s)); try discriminate. destruct (p <? length (prods s)); inversion H; subst; unf2; auto.
-  - destruct (p <? length (prods s)); [|discriminate]. unfold prod_step, admit in H. rewrite A in H. cbn [negb] in H.
+  - destruct (p <? length (prods s)); [|discriminate]. unfold prod_step, admission in H. rewrite A in H. cbn [negb] in H.
     destruct (pc (get_prod p s)); try discriminate;
       repeat match type of H with context [if ?b then _ else _] => destruct b end; inversion H; subst; unf2; auto;
       destruct (cons s); auto.
